@@ -9,6 +9,7 @@ import (
 	"storj.io/drpc"
 
 	"github.com/anyproto/any-sync/app/logger"
+	"github.com/anyproto/any-sync/util/simhook"
 )
 
 type stream struct {
@@ -82,6 +83,7 @@ func (sr *stream) writeLoop() {
 }
 
 func (sr *stream) streamClose() {
+	simhook.Yield("stream.streamClose")
 	if !sr.closed.Swap(true) {
 		_ = sr.queue.Close()
 		_ = sr.stream.Close()
